@@ -194,9 +194,32 @@ func Build(s *Spec) (*Fixture, error) {
 			return nil, fmt.Errorf("NewPrivateKey: %v", err)
 		}
 		fx.privs = append(fx.privs, k)
+		// How an object came to be is a dimension of its own: the same
+		// public key parsed from bytes, handed out by a private key object
+		// (one made for the purpose, nobody else uses it) or built from a
+		// point may differ in what it carries beside its value - spare
+		// capacity, shared backing arrays, cached halves.  The route is a
+		// function of the spec, so the solo-run clone takes the same one.
+		route := int(b[len(b)-1]) % 4
 		pk, err := secec.NewPublicKey(fx.modelQ[i].Uncompressed())
 		if err != nil {
 			return nil, fmt.Errorf("NewPublicKey: %v", err)
+		}
+		switch route {
+		case 1:
+			if own, err := secec.NewPrivateKey(b); err == nil {
+				pk = own.PublicKey()
+			}
+		case 2:
+			if pt, err := secp256k1.NewPointFromBytes(fx.modelQ[i].Compressed()); err == nil {
+				if k2, err := secec.NewPublicKeyFromPoint(pt); err == nil {
+					pk = k2
+				}
+			}
+		case 3:
+			if k2, err := secec.NewPublicKey(fx.modelQ[i].Compressed()); err == nil {
+				pk = k2
+			}
 		}
 		fx.pubs = append(fx.pubs, pk)
 		sk, err := bitcoin.NewSchnorrPrivateKey(b)
@@ -207,6 +230,20 @@ func Build(s *Spec) (*Fixture, error) {
 		spk, err := bitcoin.NewSchnorrPublicKey(ref.I2OSP32(fx.modelQ[i].X))
 		if err != nil {
 			return nil, fmt.Errorf("NewSchnorrPublicKey: %v", err)
+		}
+		switch route {
+		case 1:
+			if own, err := bitcoin.NewSchnorrPrivateKey(b); err == nil {
+				spk = own.PublicKey()
+			}
+		case 2:
+			if own, err := secec.NewPrivateKey(b); err == nil {
+				spk = bitcoin.NewSchnorrPrivateKeyFromECDSA(own).PublicKey()
+			}
+		case 3:
+			if own, err := secec.NewPublicKey(fx.modelQ[i].Compressed()); err == nil {
+				spk = bitcoin.NewSchnorrPublicKeyFromECDSA(own)
+			}
 		}
 		fx.spubs = append(fx.spubs, spk)
 
